@@ -25,6 +25,7 @@ RULE = ("a coroutine function decorated with (a) a contextmanager-built manager 
 RULE += (' Also: body failures of every standard type incl. instances of Exception/BaseException/StopAsyncIteration themselves and falsy exception instances; contexts translating the failure (raise New from err / implicit / from None); decorated functions with parameters named func/self/args/kwds/cm passed by keyword.')
 RULE += (' Also: class managers and lease copies are falsy.')
 RULE += (' Also: managers that are awaitable as well (being awaited is reported).')
+RULE += (' Also: managers swallowing every BaseException the body raises.')
 ASSUMPTIONS = ["class-based ContextDecorator instances are shared between calls (documented default of _recreate_cm)"]
 EXHAUSTIVE_SUBSPACES = 'every scenario counted in scenarios_explored_exhaustively had ALL its interleavings executed'
 EXHAUSTIVE = {"quick": False, "thorough": False}
